@@ -2,6 +2,7 @@ SPECIFICATION SpecA
 CONSTANTS
   Ids = {A, B}
   MaxKeys = 2
+  CertN = 2
   Depth = 6
   MaxLevel = 0
   MaxFaults = 1
